@@ -1217,7 +1217,11 @@ fn designator_to_asg(
             if typ.is_const() {
                 // An undeclared name, or a const-typed symbol without a recorded value (qubit, gate, ...),
                 // has no value to evaluate.
-                let const_value = sym.ok().and_then(|id| context.get_const_value(id));
+                // Only an integer symbol has a value that can be a width: `const float n = 4;` has none.
+                let const_value = sym
+                    .ok()
+                    .filter(|_| matches!(typ, Type::Int(..) | Type::UInt(..)))
+                    .and_then(|id| context.get_const_value(id));
                 let width = match const_value.map(u32::try_from) {
                     Some(Ok(width)) => width,
                     _ => {
